@@ -259,7 +259,7 @@ def leg_c_reshape(ctx, rng, n):
 def run(ctx):
     ctx.trusted = TRUSTED
     ctx.assumptions = ["NumPy's functions are the specification", "element values are small integers (exact) or halves"]
-    core.prove(ctx, PID)
+    core.prove(ctx, PID, uses=["normalizeAxisInt"])
     rng = gen.rng_for(ctx.seed, PID)
     leg_a(ctx, rng, 300 if ctx.quick else 3000)
     leg_c(ctx, rng, 120 if ctx.quick else 1500)
